@@ -22,6 +22,7 @@ import (
 	"sync"
 	"sync/atomic"
 	"syscall"
+	"time"
 
 	vk "github.com/daeuniverse/dae/verifkit"
 )
@@ -73,7 +74,10 @@ func c13TrackerConcurrent(m *vk.Monitor) {
 			}
 		}
 		var bad atomic.Pointer[c13Verdict]
-		var holds, transfers, waited atomic.Int64
+		var holds, transfers, waited, ticks atomic.Int64
+		// what each worker is doing: 0 between calls, 1 inside Retain, 2 inside Forget,
+		// 3 between BeginRelease and FinalizeRelease (a kernel delete in flight), 4 done
+		state := make([]atomic.Int32, workers)
 		var wg sync.WaitGroup
 		for w := range plans {
 			wg.Add(1)
@@ -85,7 +89,10 @@ func c13TrackerConcurrent(m *vk.Monitor) {
 					}
 					g := w % 2
 					key := []bpfTuplesKey{keys[st.key]}
+					state[w].Store(1)
 					trk[g].Retain(key)
+					state[w].Store(0)
+					ticks.Add(1)
 					kern[g].put(keys[st.key]) // the datapath (re)creates the flow entry while it is owned
 					holds.Add(1)
 					for i := 0; i < st.yields; i++ {
@@ -100,9 +107,14 @@ func c13TrackerConcurrent(m *vk.Monitor) {
 					if st.mode == 1 {
 						// TransferRetainedUdpConnStateTuplesFrom: Retain(new) then Forget(old)
 						n := 1 - g
+						state[w].Store(1)
 						trk[n].Retain(key)
+						state[w].Store(0)
 						kern[n].put(keys[st.key])
+						state[w].Store(2)
 						trk[g].Forget(key)
+						state[w].Store(0)
+						ticks.Add(1)
 						transfers.Add(1)
 						g = n
 						if !kern[g].has(keys[st.key]) {
@@ -113,6 +125,7 @@ func c13TrackerConcurrent(m *vk.Monitor) {
 					}
 					// ReleaseUdpConnStateTuples
 					rel := trk[g].BeginRelease(key)
+					state[w].Store(3)
 					for i := 0; i < st.yields; i++ {
 						runtime.Gosched()
 					}
@@ -120,13 +133,59 @@ func c13TrackerConcurrent(m *vk.Monitor) {
 						kern[g].del(r.key)
 					}
 					trk[g].FinalizeRelease(rel)
+					state[w].Store(0)
+					ticks.Add(1)
 					if len(rel) > 0 {
 						waited.Add(1)
 					}
 				}
+				state[w].Store(4)
 			}(w)
 		}
-		wg.Wait()
+		// bounded progress: every Retain/Forget that waits on an in-flight kernel delete must
+		// return once that delete has been finalised. If nothing moves for 10 s while every
+		// live worker sits inside Retain/Forget and NO delete is in flight, nobody can ever
+		// wake them: the flow owner (and its endpoint's Close) is parked forever.
+		allDone := make(chan struct{})
+		go func() { wg.Wait(); close(allDone) }()
+		stuck := false
+		last, lastAt := ticks.Load(), time.Now()
+	waitLoop:
+		for {
+			select {
+			case <-allDone:
+				break waitLoop
+			case <-time.After(50 * time.Millisecond):
+			}
+			if n := ticks.Load(); n != last {
+				last, lastAt = n, time.Now()
+				continue
+			}
+			if time.Since(lastAt) < 10*time.Second {
+				continue
+			}
+			parked, inflight := 0, 0
+			for i := range state {
+				switch state[i].Load() {
+				case 1, 2:
+					parked++
+				case 3:
+					inflight++
+				}
+			}
+			stuck = true
+			if parked > 0 && inflight == 0 {
+				m.Violation("tuple/retain-parked-after-deletion-finalised",
+					fmt.Sprintf("%d of %d flow owners are parked inside udpConnStateTracker.Retain/Forget for >10 s although no kernel delete is in flight any more (every FinalizeRelease has returned): they can never be woken", parked, workers),
+					map[string]any{"round": round, "workers": workers, "keys": nk, "plans": fmt.Sprint(plans)})
+			} else {
+				m.Inconclusive("tracker round %d made no progress for 10 s (parked=%d, deletes in flight=%d)", round, parked, inflight)
+			}
+			break waitLoop
+		}
+		if stuck {
+			break // goroutines of this round are lost; stop the tracker rounds
+		}
 		m.Eval(int(holds.Load()))
 		m.Count("c_trk_rounds", 1)
 		m.Count("c_trk_holds", holds.Load())
